@@ -40,7 +40,7 @@ def configs(tier):
         return ('%s-N%d-%s-%s-step%s-%s-w%d' % (fn, n, tr, stop, step, interp, w), d)
     if q:
         out += [cfg('gni', 'x-1'), cfg('gni', 'x2', stop='fixed2', step='1/2', w=1), cfg('gni', 'x-1', stop='rilling'), cfg('gni', 'x1.4', w=3),
-                cfg('gni', 'rev', stop='fixed2'), cfg('gni', 'rev', stop='rilling', w=3), cfg('gni', 'xsym'),
+                cfg('gni', 'rev', stop='fixed2'), cfg('gni', 'rev', stop='rilling', w=3), cfg('gni', 'xsym'), cfg('gni', 'rev', n=7),
                 cfg('gni', 'x-1/3', interp='pchip'), cfg('gni', 'rev', interp='pchip', stop='fixed2', step='1/2'),
                 cfg('gni', 'rev', stop='sd0.1', _budget_s=15),
                 cfg('sift', 'x-4', stop='fixed2'), cfg('sift', 'rev', w=1), cfg('sift', 'x2', stop='rilling', step='1/2', _budget_s=25),
